@@ -30,7 +30,18 @@ def base_spec(rng):
             # make the signal sizeable
             for c in spec['channels']:
                 for s in c['samples']:
-                    if s['name'] == 'signal': s['data'] = [max(x, 20.0) for x in s['data']]
+                    if s['name'] == 'signal':
+                        # a raised bin takes its variation templates and bin-wise uncertainties along (same relative size): raising the
+                        # nominal alone would leave both templates of a shape systematic far below it — a bimodal likelihood, not well-posed
+                        for b, x in enumerate(s['data']):
+                            if x >= 20.0: continue
+                            f = 20.0 / x if x > 0 else None
+                            s['data'][b] = 20.0
+                            for m in s['modifiers']:
+                                if m['type'] == 'histosys':
+                                    for key in ('lo_data', 'hi_data'): m['data'][key][b] = round(m['data'][key][b] * f, 3) if f else 20.0
+                                elif m['type'] in ('staterror', 'shapesys'):
+                                    m['data'][b] = round(m['data'][b] * f, 3) if f else 2.0
             return spec, info
     return spec, info
 
@@ -138,6 +149,76 @@ def rw_split_sample(rng, spec):
     return s, {}, 1.0
 
 
+def distinct_local_minima(pyhf, spec, data, mu, rng, extra=(), nstarts=10):
+    """Well-posedness diagnosis, run only when an inference comparison disagrees.  The property quantifies over *well-posed* models; a
+    likelihood with several local optima is not one (two correct optimisers may legitimately stop in different ones, and then produce
+    different Asimov data sets).  For each fit `hypotest(mu)` performs — on the observations: POI fixed at 0, free, POI fixed at `mu`; on
+    the Asimov data of the best background-only point: free, POI fixed at `mu` — the numpy objective is minimised by scipy (tolerance
+    1e-10) from the default start, `nstarts` random starts and the `extra` points (fitted points of the disagreeing configurations).
+    Returns a description of the first fit that has two distinct converged optima (parameter distance > 0.05), else None.  The
+    backend / optimiser used here is fixed (numpy / scipy), so a broken configuration cannot make its own disagreement look benign."""
+    saved = pyhf.get_backend()
+    pyhf.set_backend('numpy', pyhf.optimize.scipy_optimizer(tolerance=1e-10))
+    try:
+        m = pyhf.Model(spec, poi_name='mu')
+        init = list(m.config.suggested_init()); bounds = list(m.config.suggested_bounds()); fixed = list(m.config.suggested_fixed()); poi = m.config.poi_index
+        rs = np.random.RandomState(rng.randrange(2**31))
+
+        def starts():
+            out = [list(init)]
+            for _ in range(nstarts):
+                q = []
+                for x, (lo, hi), fx in zip(init, bounds, fixed):
+                    if fx: q.append(x)
+                    elif lo < 0: q.append(float(np.clip(rs.uniform(-2.0, 2.0), lo, hi)))
+                    else: q.append(float(np.clip(x * rs.uniform(0.7, 1.3), lo + 1e-9, hi - 1e-9)))
+                out.append(q)
+            return out + [list(map(float, e)) for e in extra if len(e) == len(init)]
+
+        def optima(dataset, poival):
+            found = []
+            for st in starts():
+                st = list(st)
+                try:
+                    if poival is None: pt, val = pyhf.infer.mle.fit(dataset, m, init_pars=st, return_fitted_val=True)
+                    else:
+                        st[poi] = poival
+                        pt, val = pyhf.infer.mle.fixed_poi_fit(poival, dataset, m, init_pars=st, return_fitted_val=True)
+                except Exception:  # noqa   (a failed start is no optimum)
+                    continue
+                pt = np.asarray(pt, dtype=float); val = float(val)
+                if not math.isfinite(val): continue
+                if not any(np.max(np.abs(pt - q)) <= 0.05 for q, _ in found): found.append((pt, val))
+            return sorted(found, key=lambda t: t[1])
+        obs = list(data)
+        o1 = optima(obs, 0.0)
+        if len(o1) >= 2: return {'fit': 'observations, POI fixed at 0', 'optima': [[float(v), [round(float(x), 4) for x in q]] for q, v in o1[:3]]}
+        for label, poival in (('observations, free', None), (f'observations, POI fixed at {mu}', mu)):
+            o = optima(obs, poival)
+            if len(o) >= 2: return {'fit': label, 'optima': [[float(v), [round(float(x), 4) for x in q]] for q, v in o[:3]]}
+        if o1:
+            asimov = [float(x) for x in np.asarray(m.expected_data(o1[0][0]))]
+            for label, poival in (('Asimov data, free', None), (f'Asimov data, POI fixed at {mu}', mu)):
+                o = optima(asimov, poival)
+                if len(o) >= 2: return {'fit': label, 'optima': [[float(v), [round(float(x), 4) for x in q]] for q, v in o[:3]]}
+        return None
+    finally:
+        pyhf.set_backend(*saved)
+
+
+def fitted_points(pyhf, m, data, mu):
+    """the points the current configuration's fits stop at (extra starting points for the diagnosis above)"""
+    pts = []
+    try:
+        b = pyhf.infer.mle.fixed_poi_fit(0.0, data, m); pts.append(b)
+        pts.append(pyhf.infer.mle.fit(data, m)); pts.append(pyhf.infer.mle.fixed_poi_fit(mu, data, m))
+        asimov = m.expected_data(b)
+        pts.append(pyhf.infer.mle.fit(asimov, m)); pts.append(pyhf.infer.mle.fixed_poi_fit(mu, asimov, m))
+    except Exception:  # noqa
+        pass
+    return [[float(x) for x in np.asarray(pyhf.tensorlib.tolist(q), dtype=float)] for q in pts]
+
+
 REWRITES = {'split-sample': rw_split_sample, 'permute': rw_permute, 'rename': rw_rename, 'zero-sample': rw_zero_sample, 'null-systematic': rw_null_systematic,
             'split-channel': rw_split_channel, 'scale-signal': rw_scale_signal}
 
@@ -226,12 +307,16 @@ def run(ctx):
             try:
                 f0 = float(pyhf.infer.mle.fit(d0, m0, return_fitted_val=True)[1]); f1 = float(pyhf.infer.mle.fit(d1, m1, return_fitted_val=True)[1])
                 if abs((f1 + 2 * const) - f0) > 1e-4 * (1 + abs(f0)):
-                    ctx.fail('C15/fit', 'maximised likelihood changes under a likelihood-preserving rewrite', inp, f1 + 2 * const, f0)
+                    why = distinct_local_minima(pyhf, spec, d0, 1.0, rng) or distinct_local_minima(pyhf, s1, d1, 1.0 / k, rng)
+                    if why is not None: ctx.tally('not_well_posed_skipped', 'fit: ' + why['fit'])
+                    else: ctx.fail('C15/fit', 'maximised likelihood changes under a likelihood-preserving rewrite', inp, f1 + 2 * const, f0)
                 mu = rng.choice([0.5, 1.0, 2.0])
                 c0 = pyhf.infer.hypotest(mu, d0, m0, return_expected_set=True); c1 = pyhf.infer.hypotest(mu / k, d1, m1, return_expected_set=True)
                 a0 = [float(c0[0])] + [float(x) for x in c0[1]]; a1 = [float(c1[0])] + [float(x) for x in c1[1]]
                 if any(abs(x - y) > 2e-4 + 2e-3 * abs(x) for x, y in zip(a0, a1)):
-                    ctx.fail('C15/cls', 'CLs (observed or expected) changes under a likelihood-preserving rewrite', dict(inp, mu=mu), a1, a0)
+                    why = distinct_local_minima(pyhf, spec, d0, mu, rng) or distinct_local_minima(pyhf, s1, d1, mu / k, rng)
+                    if why is not None: ctx.tally('not_well_posed_skipped', 'cls: ' + why['fit'])
+                    else: ctx.fail('C15/cls', 'CLs (observed or expected) changes under a likelihood-preserving rewrite', dict(inp, mu=mu), a1, a0)
             except Exception as e:  # noqa
                 ctx.tally('inference_exception', type(e).__name__)
         if len(names) >= 2: ctx.nontrivial(json.dumps([spec, names], sort_keys=True))
@@ -262,5 +347,13 @@ def run(ctx):
                 # points (observed on the unchanged tree: 0.14 %, 0.2 % and 0.65 % of CLs on boundary / flat-direction fits); only a gross disagreement is reported here — tight
                 # optimality is C05's subject (KKT certificate on the convex family)
                 if abs(v - ref) > 2e-2 * abs(ref) + 1e-3:
+                    full = obs + list(pyhf.Model(spec, poi_name='mu').config.auxdata)
+                    extra = []
+                    for cfg in (list(vals)[0], kx):
+                        pyhf.set_backend(cfg[0], pyhf.optimize.scipy_optimizer(tolerance=1e-10) if cfg[1] == 'scipy' else pyhf.optimize.minuit_optimizer(tolerance=1e-4))
+                        extra += fitted_points(pyhf, pyhf.Model(spec, poi_name='mu'), pyhf.tensorlib.astensor(np.asarray(full)), 1.0)
+                    why = distinct_local_minima(pyhf, spec, full, 1.0, rng, extra)
+                    if why is not None:
+                        ctx.tally('not_well_posed_skipped', 'backend-optimiser: ' + why['fit']); continue
                     ctx.fail('C15/backend-optimiser', 'CLs differs between backends / optimisers beyond tolerance', {'spec': spec, 'config': list(kx), 'data': obs + list(pyhf.Model(spec, poi_name='mu').config.auxdata), 'all': {'/'.join(k): x for k, x in vals.items()}}, v, ref)
     pyhf.set_backend('numpy', 'scipy')
